@@ -69,6 +69,29 @@ pub fn synth_pos(e: &mut Entropy) -> Option<Pos> {
             }
         }
     }
+    // optional promotion structure: a pawn on its 7th rank, usually with an enemy piece on a
+    // neighbouring file of the last rank (capture-promotions, also inside quiescence)
+    if e.chance(1, 4) {
+        let white = e.pick(2) == 0;
+        let f = e.pick(8) as i32;
+        let (r7, r8) = if white { (6, 7) } else { (1, 0) };
+        let s7 = o::sq(f, r7);
+        if p.sq[s7] == 0 && !reserved[s7] && counts[if white { 0 } else { 1 }][o::P as usize] < 8 {
+            p.sq[s7] = o::mk(white, o::P);
+            counts[if white { 0 } else { 1 }][o::P as usize] += 1;
+            for df in [-1i32, 1] {
+                let nf = f + df;
+                if (0..8).contains(&nf) && e.chance(2, 3) {
+                    let s8 = o::sq(nf, r8);
+                    if p.sq[s8] == 0 && !reserved[s8] {
+                        let t = [o::N, o::B, o::R, o::Q][e.pick(4)];
+                        p.sq[s8] = o::mk(!white, t);
+                        counts[if white { 1 } else { 0 }][t as usize] += 1;
+                    }
+                }
+            }
+        }
+    }
     const SIZES: [usize; 10] = [0, 1, 2, 3, 4, 6, 8, 10, 12, 15];
     for white in [true, false] {
         let ci = if white { 0 } else { 1 };
@@ -209,7 +232,13 @@ pub fn start_pos(ent: &[u16], corpus: &Corpus, mix: StartMix) -> Option<(Pos, St
             Some((corpus.positions[i].clone(), format!("corpus:{}", corpus.tags[i])))
         }
         2 => synth_pos(&mut e).map(|p| (p, "synth".into())),
-        _ => pattern_pos(&mut e, corpus),
+        _ => {
+            if e.pick(5) == 0 {
+                dense_slider_pos(&mut e).map(|p| (p, "pattern:dense-slider".to_string()))
+            } else {
+                pattern_pos(&mut e, corpus)
+            }
+        }
     }
 }
 
@@ -383,6 +412,69 @@ pub fn heavy_pos(e: &mut Entropy) -> Option<Pos> {
     p.fmn = 30 + e.pick(40) as u32;
     if p.is_valid_start().is_err() || p.in_check(p.wtm) || p.legal_moves().is_empty() {
         return None;
+    }
+    Some(p)
+}
+
+/// A slider whose every line square is occupied (by either colour): the extreme entries of
+/// the magic tables (all relevance bits set), reached through real positions.
+pub fn dense_slider_pos(e: &mut Entropy) -> Option<Pos> {
+    let mut p = Pos::empty();
+    let t = [o::B, o::R, o::Q, o::B][e.pick(4)];
+    let centre = [27usize, 28, 35, 36, 18, 21, 42, 45, 19, 20, 26, 29, 34, 37, 43, 44];
+    let s = if e.chance(1, 3) { e.pick(64) } else { centre[e.pick(centre.len())] };
+    let white = e.pick(2) == 0;
+    p.sq[s] = o::mk(white, t);
+    let dirs: Vec<(i32, i32)> = match t {
+        o::B => vec![(1, 1), (-1, 1), (-1, -1), (1, -1)],
+        o::R => vec![(1, 0), (0, 1), (-1, 0), (0, -1)],
+        _ => vec![(1, 1), (-1, 1), (-1, -1), (1, -1), (1, 0), (0, 1), (-1, 0), (0, -1)],
+    };
+    // kings first, off the slider's lines
+    let on_line = |q: usize| -> bool {
+        let (df, dr) = (o::file_of(q) - o::file_of(s), o::rank_of(q) - o::rank_of(s));
+        dirs.iter().any(|&(a, b)| (a == 0 && df == 0 && dr.signum() == b) || (b == 0 && dr == 0 && df.signum() == a) || (a != 0 && b != 0 && df.abs() == dr.abs() && df.signum() == a && dr.signum() == b))
+    };
+    let free: Vec<usize> = (0..64).filter(|&q| q != s && !on_line(q)).collect();
+    if free.len() < 2 {
+        return None;
+    }
+    let wk = free[e.pick(free.len())];
+    let bkc: Vec<usize> = free.iter().copied().filter(|&q| cheb(q, wk) > 1).collect();
+    if bkc.is_empty() {
+        return None;
+    }
+    let bk = bkc[e.pick(bkc.len())];
+    p.sq[wk] = o::mk(true, o::K);
+    p.sq[bk] = o::mk(false, o::K);
+    // every line square gets a piece; the last one or two of each ray are sometimes left
+    // empty (the table ignores edge squares)
+    let skip_edges = e.pick(3);
+    for &(a, b) in &dirs {
+        let (mut f, mut r) = (o::file_of(s) + a, o::rank_of(s) + b);
+        while (0..8).contains(&f) && (0..8).contains(&r) {
+            let q = o::sq(f, r);
+            let edge = !(0..8).contains(&(f + a)) || !(0..8).contains(&(r + b));
+            if !(edge && skip_edges == 0) {
+                let mut tt = [o::P, o::N, o::B, o::R, o::Q, o::P, o::N][e.pick(7)];
+                if tt == o::P && !(1..=6).contains(&r) {
+                    tt = o::N;
+                }
+                p.sq[q] = o::mk(e.pick(2) == 0, tt);
+            }
+            f += a;
+            r += b;
+        }
+    }
+    p.wtm = e.pick(2) == 0;
+    p.fmn = 20 + e.pick(30) as u32;
+    if p.is_valid_start().is_err() {
+        return None;
+    }
+    if let Some(k) = p.king_sq(p.wtm) {
+        if p.attackers_count(k, !p.wtm) > 2 {
+            return None;
+        }
     }
     Some(p)
 }
